@@ -77,7 +77,8 @@ Definition pb_one p tol ptol k j G Qs Qt slackon (e : list Q * (list Q * list Q)
 (* per point of the recorded belief set (model side only) *)
 Definition pb_pt p tol k j G Qs Qt slackon (u : list Q) :=
   (@chk_pbvi_upperF Q NumQ p tol k j G u, fst (le_tab p tol Qt slackon j G u),
-   @chk_crossF Q NumQ p tol j G Qs u, snd (le_tab p tol Qt slackon j G u)).
+   @chk_crossF Q NumQ p tol j G Qs u, snd (le_tab p tol Qt slackon j G u),
+   qz (@alpha_valueF Q NumQ p G u)).
 (* jq = Some j: use the exact j-step QMDP table; None: the optimal table Qs with slack tail j *)
 Definition pb_rep p tol ptol k j (exactj : bool) G Qs es pts :=
   let Qt := if exactj then qtab p j else Qs in
@@ -92,7 +93,10 @@ Definition q_rep p qtol tol ptol k Vs Qt es :=
   (@wfpomdpb Q NumQ p, @chk_qtableF Q NumQ p qtol Vs Qt, map (q_one p tol ptol k Qt) es).
 Definition gr p ptol (l : list (list Q * list Q)) :=
   map (fun e => @greedy_checkF Q NumQ p ptol (fst e) (snd e)) l.
-Definition sw p tol Gprev B cand idx := @chk_sweepF Q NumQ p tol Gprev B cand idx.
+(* (tie-independent check of the last sweep on the first points,
+    max_b |Gprev[b].b - Gnew[b].b| over ALL points = the quantity the stopping test compares with eps) *)
+Definition sw p tol Gprev B cand idx Ball Gpall Gnew :=
+  (@chk_sweepF Q NumQ p tol Gprev B cand idx, qz (@vdelta Q NumQ p Ball Gpall Gnew)).
 Definition mir p H amb eps B Gi tol :=
   (@wfpomdpb bigQ NumB p,
    @mirror_cmp bigQ NumB p H (BigQ.of_Q amb) (BigQ.of_Q eps) (b2 B) (b2 Gi) (BigQ.of_Q tol)).
@@ -246,11 +250,18 @@ def degenerate_case():
             "reuse": True, "touch_first": False, "initial_index": 0, "variants": ["degenerate"]}
 
 
-def gen_case(rng, tier):
+def gen_case(rng, tier, force=None):
+    """force = 'large-values-tight-threshold:tiger' | 'large-values-tight-threshold:fullobs-costs': value scale
+    ~1e3..1e4 with eps = 1e-3 and horizon=None, so that 1e-5*|V| >> eps (a relative term in the stopping
+    test, or any other scale-dependent slack, then shows)"""
     r = rng.random()
     gamma = rng.choice(GAMMAS)
     variants = []
     gb = rng.random()
+    if force:
+        r, gb = (0.0, 1.0) if force.endswith("tiger") else (0.9, 1.0)
+        gamma = "9/10" if force.endswith("tiger") else "19/20"
+        variants.append(force)
     if gb < .06:
         gamma, _ = "0", variants.append("gamma=0")
     elif gb < .12:
@@ -260,10 +271,13 @@ def gen_case(rng, tier):
     else:
         nmax = 3 if rng.random() < .6 else 4
         for _ in range(50):
-            pc = gen_pomdp.gen_pomdp(rng, nmax=nmax, amax=3, omax=3, gamma=gamma, near_twin=.15)
+            pc = gen_pomdp.gen_pomdp(rng, nmax=nmax, amax=3, omax=3, gamma=gamma, near_twin=0.0 if force else .15,
+                                     nonpos=bool(force))
             if (pc["nO"] >= 2 or rng.random() < .1) and (pc["nA"] >= 2 or rng.random() < .15):
                 break
     fullobs = r >= .35 and rng.random() < .25
+    if force:
+        fullobs = not force.endswith("tiger")
     if fullobs:
         pc.pop("obs_near_twin", None)
         pc["nO"] = pc["n"]
@@ -272,24 +286,32 @@ def gen_case(rng, tier):
     # ---- boundary variants ----
     if pc.get("obs_near_twin"):
         variants.append("observation-near-twin-2^-30")    # gen_pomdp opt-in: two posteriors ~1e-9 apart
-    if pc["nA"] <= 2 and rng.random() < .2:
+    if not force and pc["nA"] <= 2 and rng.random() < .2:
         variants.append("duplicate-action-" + dup_action(rng, pc))
-    if rng.random() < .3:
+    if not force and rng.random() < .3:
         for s in range(pc["n"]):
             if pc["absorbing"][s] and all(pc["trans"]["%d,%d" % (s, a)] == [[s, "1"]] for a in range(pc["nA"])):
                 for a in range(pc["nA"]):
                     pc["reward"]["%d,%d,%d" % (s, a, s)] = str(rng.choice([-3, 2, 5]))   # must be ignored
                 variants.append("absorbing-selfloop-reward")
                 break
-    if not fullobs and rng.random() < .12:
+    if not force and not fullobs and rng.random() < .12:
         tiny_probabilities(rng, pc)
         variants.append("probability-2^-30")
-    if rng.random() < .15:
+    scaled = False
+    if force:
+        pc["reward"] = {key: str(F(v) * 64) for key, v in pc["reward"].items()}
+    elif rng.random() < .15:
         k = rng.choice([2**10, 2**20])
         pc["reward"] = {key: str(F(v) * k) for key, v in pc["reward"].items()}
         variants.append("rewards-x%d" % k)
+        scaled = True
     cfg = {"min_exp": rng.choice([0, 1, 2, 3]), "max_exp": rng.choice([1, 2, 3]),
            "eps": rng.choice(EPSS + ["1/100", "1", "0"]), "horizon": rng.choice([None, None, 1, 3, 10])}
+    if force or (scaled and gamma in GAMMAS and rng.random() < .5):
+        cfg["eps"], cfg["horizon"] = "1/1000", None       # tight threshold on a large value scale
+        if force:
+            cfg["min_exp"], cfg["max_exp"] = 3, 2
     if fullobs:
         cfg["min_exp"], cfg["max_exp"] = 3, rng.choice([2, 4])
     if "probability-2^-30" in variants or "observation-near-twin-2^-30" in variants:
@@ -305,8 +327,12 @@ def gen_case(rng, tier):
     bl = gen_pomdp.gen_beliefs(rng, pc, n_grid=2, n_reach=3)
     rng.shuffle(bl)
     keep = [b for b in bl if b["kind"] in ("initial",)] + [b for b in bl if b["kind"] == "reachable"][:3]
+    # beliefs with (all / part of) their mass on absorbing states are always among the test beliefs
+    keep += [b for b in bl if b["kind"] in ("absorbing-face", "absorbing-leak")]
+    absv = [b for b in bl if b["kind"] == "vertex" and any(pc["absorbing"][s2] and F(x) == 1 for s2, x in enumerate(b["b"]))]
+    keep += absv[:1]
     rest = [b for b in bl if b not in keep]
-    keep += rest[:max(0, 6 - len(keep))]
+    keep += rest[:max(0, 7 - len(keep))]
     beliefs = [b["b"] for b in keep]
     kinds = [b["kind"] for b in keep]
     if pc["n"] >= 2:
@@ -383,9 +409,15 @@ def pomdp_term(pc, order, mk="mkp"):
         q(pc["gamma"]), qten(Ob))
 
 
+def usable(qr):
+    return "error" not in qr and finite(qr["value"]) and all(finite(x) for x in qr["action_values"] + qr["dist"])
+
+
 def entries(beliefs, queries):
     es = []
     for b, qr in zip(beliefs, queries):
+        if not usable(qr):
+            continue
         es.append("(%s, (%s, %s))" % (qlist(b), qlist(qr["action_values"]), qlist(qr["dist"])))
     return coqlist(es)
 
@@ -420,7 +452,10 @@ def run(ctx):
     if ctx.replay_case:
         cases = [ctx.replay_case["detail"]["case"]]
     else:
-        cases = [degenerate_case()] + [gen_case(ctx.rng, tier) for _ in range(ncases - 1)]
+        cases = [degenerate_case(),
+                 gen_case(ctx.rng, tier, force="large-values-tight-threshold:tiger"),
+                 gen_case(ctx.rng, tier, force="large-values-tight-threshold:fullobs-costs")] + \
+                [gen_case(ctx.rng, tier) for _ in range(ncases - 3)]
     shards = min(ctx.jobs, 8 if tier == "quick" else 16)
     impl = ctx.impl("c08_impl.py", {"cases": cases}, shards=shards)["results"]
 
@@ -471,11 +506,15 @@ def run(ctx):
             ctx.violation("C08:pbvi:raises:" + pb["error"].split(":")[0], {"case": case, "error": pb["error"]}, found=True)
         else:
             lc = pb["last_call"]
-            bad = [qr for qr in pb["queries"] if "error" in qr]
             nonfin = any(not finite(x) for v in pb["alpha_vectors"] for x in v)
-            if bad:
-                ctx.violation("C08:pbvi:policy-query-raises:" + bad[0]["error"].split(":")[0], {"case": case, "error": bad[0]["error"]}, found=True)
-            elif nonfin or lc is None or lc["alpha_vectors"] != pb["alpha_vectors"]:
+            for bi, bq in enumerate(pb["queries"]):
+                if not usable(bq):
+                    sig = "C08:pbvi:policy-query-raises:" + bq["error"].split(":")[0] if "error" in bq else \
+                        "C08:alpha-policy:value-is-not-max-alpha-dot-belief"
+                    ctx.violation(sig, {"case": case, "belief": case["beliefs"][bi], "impl": bq,
+                                        "clause": "the alpha-vector policy's value / action values / action distribution at this belief raise or are not finite"}, found=True)
+                    break
+            if nonfin or lc is None or lc["alpha_vectors"] != pb["alpha_vectors"]:
                 ctx.violation("C08:pbvi:nonfinite-or-unrecorded-alpha-vectors", {"case": case, "pbvi": pb}, found=nonfin)
             else:
                 counters["pbvi_runs"] += 1
@@ -489,7 +528,10 @@ def run(ctx):
                 info[i].update({"H": H, "j": j})
                 G = pb["alpha_vectors"]
                 B = lc["belief_set"]
-                pts = B[:6]
+                info[i]["pb_idx"] = [bi for bi, bq in enumerate(pb["queries"]) if usable(bq)]
+                isvert = lambda b: sorted(fr(x) for x in b)[-1] == 1
+                pts = ([b for b in B if isvert(b)] + [b for b in B if not isvert(b)])[:8]   # vertices first
+                info[i]["pts"] = pts
                 terms.append("pb_rep %s %s %s %s %s %s %s %s %s %s" % (
                     pt, q(tolp), q(ptol), nat(k), nat(j), vlib.b(j <= (5 if heavy(case) else 25)), qmat(G), qmat(Qs),
                     entries(beliefs, pb["queries"]), qmat(pts)))
@@ -500,9 +542,10 @@ def run(ctx):
                     terms.append(gr_term(pt, ptol, ents))
                     meta.append(("gr:pb", i))
                 nb = min(len(B), 8)
-                terms.append("sw %s %s %s %s %s %s" % (
+                gnew = [lc["candidates"][bi][lc["selected"][bi]] for bi in range(len(B))]
+                terms.append("sw %s %s %s %s %s %s %s %s %s" % (
                     pt, q(tolp), qmat(lc["prev_alpha_vectors"]), qmat(B[:nb]), qten(lc["candidates"][:nb]),
-                    vlib.natlist(lc["selected"][:nb])))
+                    vlib.natlist(lc["selected"][:nb]), qmat(B), qmat(lc["prev_alpha_vectors"]), qmat(gnew)))
                 meta.append(("sw", i))
                 work = (min(j + 1, H)) * len(B) * nA * nO * (len(B) + n) * (8 if heavy(case) else 1)
                 if work <= mirror_budget:
@@ -517,14 +560,21 @@ def run(ctx):
             if "error" in qr:
                 ctx.violation("C08:qmdp-%s:raises:%s" % (name, qr["error"].split(":")[0]), {"case": case, "solver": name, "error": qr["error"]}, found=True)
                 continue
-            bad = [x for x in qr["queries"] if "error" in x]
-            if bad:
-                ctx.violation("C08:qmdp-%s:policy-query-raises:%s" % (name, bad[0]["error"].split(":")[0]), {"case": case, "error": bad[0]["error"]}, found=True)
-                continue
             if any(not finite(x) for row in qr["Q"] for x in row):
                 ctx.violation("C08:qmdp-%s:nonfinite-action-value" % name, {"case": case, "Q": qr["Q"]}, found=True)
                 continue
             counters["qmdp_runs"] += 1
+            info[i]["q_idx:" + name] = [bi for bi, bq in enumerate(qr["queries"]) if usable(bq)]
+            for bi, bq in enumerate(qr["queries"]):
+                if not usable(bq):
+                    # the clause, evaluated exactly on the implementation's own table
+                    want = [str(sum(fr(beliefs[bi][s2]) * fr(qr["Q"][s2][a]) for s2 in range(n))) for a in range(nA)]
+                    sig = "C08:qmdp-%s:policy-query-raises:%s" % (name, bq["error"].split(":")[0]) if "error" in bq else \
+                        "C08:qmdp-%s:action-value-not-belief-weighted-table" % name
+                    ctx.violation(sig, {"case": case, "solver": name, "belief": case["beliefs"][bi], "impl": bq,
+                                        "belief_weighted_table": want, "belief_kind": case["belief_kinds"][bi] if bi < len(case.get("belief_kinds", [])) else None,
+                                        "clause": "QMDP's action value at this belief raises / is not finite, but sum_s b(s) Q(s,a) of its own table is the finite number listed: QMDP's action values are not the belief-weighted optimal action values of the underlying MDP"}, found=True)
+                    break
             qtol = F(1, 10**8) * scale
             terms.append("q_rep %s %s %s %s %s %s %s %s" % (
                 pt, q(qtol), q(tol + qtol * 2), q(ptol), nat(k), qlist(Vs), qmat(qr["Q"]),
@@ -560,7 +610,8 @@ def run(ctx):
                 continue
             distinct.add(vlib.structural_hash([pc, case["pbvi"]]))
             j = info[i]["j"]
-            for bi, (e, qr) in enumerate(zip(per_b, pb["queries"])):
+            for e, bi in zip(per_b, info[i]["pb_idx"]):
+                qr = pb["queries"][bi]
                 nn, up, leq, cross, mval, mav, greedy, wk, tl = e
                 mval, wk, tl, mav = zq(mval), zq(wk), zq(tl), [zq(y) for y in mav]
                 nev += 1
@@ -611,12 +662,35 @@ def run(ctx):
             if fullobs:
                 closed = fullobs_closed(pc, B, info[i]["order"])
                 counters["fullobs_closed_sets"] += int(closed)
+            pts = info[i]["pts"]
+            g = F(pc["gamma"])
+            Hcap = info[i]["H"]
+            epsf = fr(pb["last_call"]["eps"])
+            P_, R_, absf_, ini_, Ob_ = ordered_arrays(pc, info[i]["order"])
+            mk_ = absorbing_mask(P_, R_, absf_)
+            Mabs = max([F(0)] + [abs(sum(P_[s2][a][x] * R_[s2][a][x] for x in range(pc["n"])))
+                                 for s2 in range(pc["n"]) if not mk_[s2] for a in range(pc["nA"])])
+            # slack implied by the CONFIGURED threshold and horizon (not by the sweeps actually run):
+            # stop by the threshold -> eps/(1-gamma) (contraction on the successor-closed vertex set);
+            # stop by the cap -> gamma^H Rmax/(1-gamma)
+            cfg_slack = max(epsf / (1 - g), g ** Hcap * Mabs / (1 - g))
             for bi, e in enumerate(per_pt):
-                up, leq, cross, fge = e
+                up, leq, cross, fge, aval = e
+                aval = zq(aval)
                 nev += 1
                 counters["beliefset_point_checks"] += 1
-                d = dict(base, belief_set_point=[str(fr(x)) for x in B[bi]], sweeps=j, depth=k,
+                d = dict(base, belief_set_point=[str(fr(x)) for x in pts[bi]], sweeps=j, depth=k,
                          alpha_vectors=pb["alpha_vectors"])
+                vert = [s2 for s2, x in enumerate(pts[bi]) if fr(x) == 1]
+                if fullobs and closed and vert:
+                    counters["fullobs_vertex_threshold_checks"] = counters.get("fullobs_vertex_threshold_checks", 0) + 1
+                    vstar = info[i]["Vs"][vert[0]]
+                    if abs(aval - vstar) > cfg_slack + tol:
+                        ctx.violation("C08:fullobs:pbvi-differs-from-optimal-value-by-more-than-threshold-slack",
+                                      dict(d, pbvi_value=str(aval), optimal_value=str(vstar), slack=str(cfg_slack),
+                                           float_difference=float(aval - vstar), float_slack=float(cfg_slack),
+                                           clause="observations reveal the state and the belief set is closed under successors: PBVI's value at a state must be within max(eps/(1-gamma), gamma^H Rmax/(1-gamma)) of the optimal MDP value (eps = configured convergence threshold, H = planning horizon)"),
+                                      found=True)
                 if not up:
                     ctx.violation("C08:pbvi:value-exceeds-optimal-value-bound", dict(d, clause="at a point of the belief set actually used"), found=True)
                 if not leq:
@@ -636,8 +710,22 @@ def run(ctx):
         elif kind == "sw":
             nev += 1
             counters["sweep_checks"] = counters.get("sweep_checks", 0) + 1
+            lc = res["pbvi"]["last_call"]
+            v, delta = v
+            delta = zq(delta)
+            epsf = fr(lc["eps"])
+            margin = info[i]["tolp"] / 1000       # 1e-12 * value scale: float rounding of the two dot products
+            if not lc["returned_is_last_sweep"]:
+                counters["stopping_rule_checks"] = counters.get("stopping_rule_checks", 0) + 1
+                # the loop stopped on its convergence test and returned the PREVIOUS vectors:
+                # the value change at every belief point must have been below the threshold
+                if delta >= epsf + margin:
+                    ctx.violation("C08:pbvi:stopped-although-value-change-exceeds-convergence-threshold",
+                                  dict(base, last_call=lc, value_change=str(delta), float_value_change=float(delta),
+                                       threshold=str(epsf), sweeps=info[i]["j"], horizon_cap=info[i]["H"],
+                                       clause="point_based_value_iteration stopped before its horizon although max_b |V_new(b) - V_old(b)| over its belief points (recomputed exactly from the recorded previous and new alpha vectors) is not below value_convergence_epsilon: the slack of the returned values is no longer the one implied by the configured threshold"),
+                                  found=True)
             if not v:
-                lc = res["pbvi"]["last_call"]
                 ctx.violation("C08:pbvi:last-sweep-not-a-point-based-backup",
                               dict(base, last_call=lc, clause="at a point of the belief set used, an action's backed-up vector does not have the value reward + gamma * sum_o max_alpha alpha.(b T_a diag O_ao) computed from the previous alpha vectors (absorbing states zeroed), or the selected action is not maximal"),
                               found=True)
@@ -671,7 +759,8 @@ def run(ctx):
                                    signature_class_rule="suffix ':discount-within-1e-5-of-1' is appended iff the case's discount rate gamma >= 1 - 1e-5 (here gamma = %s): the solver's tie test (np.isclose, rtol 1e-5 relative to |Q| ~ 1/(1-gamma)) cannot separate actions there; for every smaller discount the plain signature is used and is NOT covered by the known finding" % pc["gamma"]),
                               found=bool(worst > tol * 100))
             fullobs = bool(case.get("fullobs"))
-            for bi, (e, bq) in enumerate(zip(per_b, qr["queries"])):
+            for e, bi in zip(per_b, info[i]["q_idx:" + name]):
+                bq = qr["queries"][bi]
                 low, mav, greedy, wk, tl = e
                 wk, tl, mav = zq(wk), zq(tl), [zq(y) for y in mav]
                 nev += 1
@@ -679,8 +768,12 @@ def run(ctx):
                 d = dict(base, solver=name, belief=case["beliefs"][bi], impl=bq, depth=k, Wopt_k=str(wk), tail_k=str(tl))
                 if not low:
                     ctx.violation("C08:qmdp-%s:value-below-optimal-value-bound" % name, dict(d, clause="QMDP value < Wopt k b - tail k: QMDP under-estimates"), found=True)
-                if any(abs(fr(x) - y) > tol * 20 for x, y in zip(bq["action_values"], mav)):
-                    ctx.violation("C08:qmdp-%s:action-value-not-belief-weighted-table" % name, dict(d, model=[str(y) for y in mav]), found=True)
+                if any(abs(fr(x) - y) > tol * 20 for x, y in zip(bq["action_values"], mav)) and \
+                        (i, name, "dense", "av") not in rep_reported:
+                    rep_reported.add((i, name, "dense", "av"))      # one replay per (case, solver)
+                    ctx.violation("C08:qmdp-%s:action-value-not-belief-weighted-table" % name,
+                                  dict(d, model=[str(y) for y in mav], belief_kind=case["belief_kinds"][bi],
+                                       clause="QMDP's action value at this belief is not sum_s b(s) Q(s,a) of its own (optimal) table"), found=True)
                 if abs(fr(bq["value"]) - max(fr(x) for x in bq["action_values"])) > 0:
                     ctx.violation("C08:qmdp-%s:value-not-max-action-value" % name, d, found=True)
                 if not greedy:
